@@ -25,6 +25,12 @@ impl Check for C01 {
             cfg.avoid_stmt_after_ret = false;
             cfg.avoid_unused_andor = false;
         }
+        // a quarter of the programs draw string literals from arbitrary characters (control characters next to digits,
+        // raw newlines, quotes of the other kind, multi-byte text) instead of the plain pool
+        if t.chance(1, 4) {
+            cfg.plain_strings = false;
+            cfg.one_line_strings = true; // the trace is compared line by line
+        }
         if let Ok(off) = std::env::var("GEN_OFF") {
             for f in off.split(',') {
                 match f {
